@@ -327,8 +327,10 @@ func c07VersionStress(rng *Rng, clients, perClient int) {
 // mpSlowPart: a part upload whose body arrives slowly (gated reader) —
 // (a) must not hold up other multipart requests (on another upload, another key, listings);
 // (b) when it re-uploads part 1 while a complete of the same upload (listing part 1 with the ETag of its
-//     previous content) runs to completion, it cannot also be acknowledged: either the complete is
-//     refused for a stale ETag, or the part upload finds the upload gone.
+//
+//	previous content) runs to completion, it cannot also be acknowledged: either the complete is
+//	refused for a stale ETag, or the part upload finds the upload gone.
+//
 // Verdicts are computed here (they need no model state).
 func mpSlowPart(prop, kind string) {
 	s := newSess(prop, kind, SessOpts{})
